@@ -5,17 +5,18 @@ from .. import modules
 
 
 def run(ctx):
-    if not ctx.build_harness(["c18.go"]):
+    if not ctx.build_harness(["c18.go", "c18cons.go", "c18sig.go", "gen_tagchars.go"]):
         return
     # allocatable-register limits of the model come from the regenerated register table
-    ctx.regen([modules.REGS])
+    # … and which characters may stand in a build tag from the installed go/build/constraint (measured on every run)
+    ctx.regen([modules.REGS, modules.TAGCHARS])
     ctx.forbidden_scan()
     if not ctx.build_driver():
         return
-    if ctx.lake_each(["AvoVerif.Props.C18"]):
+    if ctx.lake_each(["AvoVerif.Props.C18", "AvoVerif.Props.C18Tables"]):
         ctx.audit("C18")
     if ctx.tier == "thorough":
-        ctx.leanchecker(["AvoVerif.Model.Ctx", "AvoVerif.Props.C18"])
+        ctx.leanchecker(["AvoVerif.Model.Ctx", "AvoVerif.Props.C18", "AvoVerif.Props.C18Tables"])
     n = 20000 if ctx.tier == "quick" else 300000
 
     def nontrivial(req, resp):
@@ -56,7 +57,47 @@ def run(ctx):
         floors_gen.update({"nil_" + k: 30 for k in ("Load.src", "Load.dst", "Store.src", "Store.dst", "Dereference",
                                                     "AddDatum", "AppendDatum", "Constraints", "Constraint",
                                                     "Instruction", "Signature")})
+        # build constraints: every Unicode general category as the one bad character of a tag name, every valid
+        # category in valid names, every position, negation, every structural fault, all three routes x both
+        # APIs x every convertible type (measured minima over seeds 1..5 are about three times these)
+        bad_cats = ("Cc Cf Cn Co Mc Me Mn Nl No Pc Pd Pe Pf Pi Po Ps Sc Sk Sm So Zl Zp Zs ascii").split()
+        floors_gen.update({"cons_badchar_" + c: 18 for c in bad_cats})
+        floors_gen.update({"cons_validchar_" + c: 1400 for c in ("Ll", "Lm", "Lo", "Lt", "Lu", "Nd", "ascii")})
+        floors_gen.update({"cons_validchar_Pc": 800, "cons_validchar_Po": 20,
+                           "cons_badchar_pos_first": 160, "cons_badchar_pos_middle": 160, "cons_badchar_pos_last": 160,
+                           "cons_badchar_alone": 60, "cons_badchar_nonascii": 540, "cons_bad_negated": 230,
+                           "cons_valid_negated": 5000,
+                           "cons_badterm_char": 580, "cons_badterm_bang": 40, "cons_badterm_bangbang": 85,
+                           "cons_badterm_empty": 40, "cons_badterm_innerbang": 40, "cons_badterm_notutf8": 80,
+                           "cons_bad_emptyline": 110, "cons_bad_emptyoption": 70, "cons_bad_danglingcomma": 30,
+                           "cons_bad_at_opt0_term0": 590, "cons_bad_at_opt0_term1": 130, "cons_bad_at_opt1_term0": 130,
+                           "cons_bad_at_opt1_term1": 30, "cons_Constraints_none": 800, "cons_expr_odd_space": 500,
+                           "cons_conv_And": 480, "cons_conv_Any": 680, "cons_conv_Not": 100, "cons_conv_Opt": 400,
+                           "cons_conv_Option": 400, "cons_conv_Term": 700, "cons_conv_Constraint": 1500,
+                           "inject_badconstraint": 180, "mode_single_bad_constraint": 200})
+        for rt in ("Constraints", "Constraint", "ConstraintExpr"):
+            floors_gen.update({"cons_invalid_" + rt: 280, "cons_invalid_pkg_" + rt: 85,
+                               "cons_valid_" + rt: 1800, "cons_valid_pkg_" + rt: 560})
+        # the other request kinds, sampled at the boundary of validity rather than from a few fixed values
+        floors_gen.update({"sig_mutant_invalid_" + k: v for k, v in dict(
+            append=50, delete=50, double=170, dup=55, insert=55, other=30, swap=50, truncate=55, word=85).items()})
+        floors_gen.update({"sig_mutant_valid_" + k: v for k, v in dict(
+            append=90, delete=130, double=180, dup=25, insert=70, other=370, swap=140, truncate=24, word=380).items()})
+        floors_gen.update({"root_near_miss_name": 360, "root_far_index": 75, "nav_far_index": 120, "datum_negative": 100,
+                           "datum_zero_width_at_edge": 600, "datum_bad_at_zero_width": 30,
+                           "nav_near_miss_field": 15, "nav_near_miss_on_slice": 40, "nav_near_miss_on_str": 10,
+                           "nav_near_miss_on_complex": 15, "nav_near_miss_on_arr": 30, "nav_near_miss_on_struct": 40,
+                           "nav_near_miss_on_ptr": 30,
+                           "attr_any": 1000, "dattr_any": 400, "label_near_miss_defined": 3400,
+                           "label_near_miss_referenced": 1100})
         low = []
+        # the sweep of the measured table's edges does not scale with n
+        for k, fl in (("cons_edge_valid", 800), ("cons_edge_invalid", 800)):
+            ctx.obligations += 1
+            if gen.get(k, 0) < fl:
+                low.append(f"{k}: {gen.get(k, 0)} < {fl}")
+            else:
+                ctx.discharged += 1
         for tbl, floors in ((oc, floors_oc), (gen, floors_gen)):
             for k, fl in floors.items():
                 ctx.obligations += 1
@@ -68,20 +109,38 @@ def run(ctx):
             ctx.obligation_failures.append(("c18: sample floors", "; ".join(low)))
     ctx.coverage["rule"] = (
         "random histories of 1-80 builder calls (about 26% valid, 15% valid but for one compile-time fault, 5% valid but "
-        "for one request that makes a stub unprintable, 6% valid but for one call with a nil argument, 20% with "
-        "builder-time faults, 18% with several compile-time faults, 10% mixed) over Function/TEXT (valid names, names "
-        "that are not Go identifiers, duplicates), Implement (without Package), Attributes, Doc, Pragma (plain / with a "
-        "line break), SignatureExpr/Signature (valid and rejected), 22 instruction constructors with matching and "
-        "non-matching operands, Context.Instruction with hand-built memory operands (no base; no base but index and "
-        "scale 1/2/4/8; index with scale 0), Label/Comment/Commentf, Param/ParamIndex/Return/ReturnIndex and "
-        "Base/Len/Cap/Real/Imag/Index/Field/Dereference chains, Load/Store/Dereference (deducible, not deducible, bad "
-        "component), AllocLocal, StaticGlobal/GLOBL/ConstData, DataAttributes, AddDatum/DATA (overlapping or not), "
-        "AppendDatum, Constraints/Constraint/ConstraintExpr (valid/invalid), register-pressure functions around the "
+        "for one request that makes a stub unprintable, 6% valid but for one call with a nil argument, 3% valid but for "
+        "one invalid build constraint, 17% with builder-time faults, 18% with several compile-time faults, 10% mixed) over "
+        "Function/TEXT (valid names, names that are not Go identifiers, duplicates), Implement (without Package), "
+        "Attributes/DataAttributes (a fixed list and any 16-bit value without NOFRAME), Doc, Pragma (plain / with a "
+        "line break), SignatureExpr/Signature (generated signatures and their mutants — delete/insert/swap/truncate/"
+        "append/word replacement/duplication/non-signature expressions — classified valid or invalid by go/types itself; "
+        "a valid mutant's structure is read back from go/types), 22 instruction constructors with matching and "
+        "non-matching operands (operand classes r64 r32 r16 r8 xmm ymm zmm k imm8 imm16 imm32 imm64 m lbl, base-less and "
+        "scale-0 memory, nil; 0-5 operands for the variadic one), Context.Instruction with hand-built memory operands "
+        "(no base; no base but index and scale 1/2/4/8; index with scale 0), Label (four names and near misses of them: "
+        "other case, one character more, look-alike letter)/Comment/Commentf, Param/ParamIndex/Return/ReturnIndex (names: "
+        "near misses — the other tuple's names, the printers' default names arg/ret, other case, a character more — and "
+        "the empty name; indices: just outside, negative, and the 32/64-bit wrap-around points) and "
+        "Base/Len/Cap/Real/Imag/Index/Field/Dereference chains (same near misses), Load/Store/Dereference (deducible, "
+        "not deducible, bad component), AllocLocal, StaticGlobal/GLOBL/ConstData, AddDatum/DATA (overlapping or not, "
+        "aimed at the edges of existing data, zero-width data at the start/end of existing ones followed by placements "
+        "there, negative offsets with an active section), AppendDatum, Constraints/Constraint/ConstraintExpr — tag names "
+        "over the whole of Unicode: every general category (Lu Ll Lt Lm Lo Nd valid; Nl No M* P* S* Z* C*, unassigned, "
+        "ASCII punctuation, bytes that are not UTF-8 invalid) at the first/middle/last position, negated or not, in any "
+        "option/term position, `!`/`!!`/empty terms, empty options and lines, dangling commas, odd white space in the text "
+        "form, zero lines, through Term/Not/Option/Opt/Constraint/Any/Constraints/And; validity is never decided by the "
+        "harness: every term carries the verdict of the installed go/build/constraint, the model decides with the table "
+        "measured from it (Oracle/TagChars) and a disagreement is answered bad-termclass; plus a sweep of that table's "
+        "boundary: for every maximal range [a,b] the code points a-1, a, b, b+1 and all of Latin-1 (about 2700 code points), each "
+        "as the one doubtful character of a request in a three-call history (quick: route/position/negation in rotation; "
+        "thorough: all 24 combinations) —, register-pressure functions around the "
         "allocatable limit of each kind, nil arguments to Load/Store/Dereference/AddDatum/AppendDatum/Constraints/"
         "Constraint/Instruction/Signature; 3 of 4 through build.Context methods, 1 of 4 through the package-level "
         "functions on a swapped-in context; every call under recover; then Result() and build.Main with [Compile, "
         "Output(goasm), Output(stubs)] into buffers, 1 of 8 instead with the Config of build.NewFlags(-out -stubs -log -e "
-        "-pkg) into files. 34 fixed histories (witnesses of all listed findings, one per fault kind) run first. Exact "
+        "-pkg) into files. 41 fixed histories (witnesses of all listed findings, one per fault kind, the witnesses of the "
+        "seeded changes about tag characters and zero-width data) run first. Exact "
         "comparison with the model: error count and class per fault, node count and local size per function, datum count "
         "and size per data section, constraint count, order of file sections (line c18); status, which outputs were "
         "written, diagnostic line count (line c18main). Acceptor (accept-c18): the property itself (Spec) evaluated on "
@@ -91,9 +150,10 @@ def run(ctx):
         "(MaxErrors > 0), not part of the property. Lower bounds on every outcome class and generator stream are "
         "obligations. Non-trivial = reaches an error path or has several sections.")
     ctx.assumptions += [
-        "operands-match-a-form, signature-expression-accepted and MOV-deducible are classifications made by the harness "
-        "from hand-written rules (22-opcode form catalogue, Go syntax, size/class table), not by the model; that the "
-        "other ~6400 constructors reject operands matching no form is C06's business",
+        "operands-match-a-form and MOV-deducible are classifications made by the harness from hand-written rules "
+        "(22-opcode form catalogue, size/class table), signature-expression-accepted is what go/types says (asked "
+        "directly, not through avo), none by the model; that the other ~6400 constructors reject operands matching no "
+        "form is C06's business",
         "absence of panics is established by running every call under recover, not by a theorem (Lean functions are total)",
         "the register-pressure block makes n virtual registers of one kind pairwise interfere; allocation fails iff n "
         "exceeds the number of non-restricted physical registers of the kind in Gen.Regs",
@@ -103,10 +163,19 @@ def run(ctx):
         "list are modelled as accepted (status 0, output written): AllocLocal with a negative size, Label(\"\"), "
         "duplicate function names, duplicate data section names, newlines in Comment; negative sizes and Label(\"\") "
         "are not generated",
-        "AddDatum/DATA with a negative offset (rejected by avo since eebfead, message 'negative offset') is neither "
-        "modelled nor generated: offsets are natural numbers in the model; note that without an active data section "
-        "such a call records two messages (no active global + negative offset), i.e. one per fault of the call, which "
-        "the model's one-message-per-request step could not express",
+        "AddDatum/DATA with a negative offset is modelled and generated only with an active data section (class "
+        "negoff); without one such a call records two messages (no active global + negative offset), i.e. one per fault of "
+        "the call, which the model's one-message-per-request step does not express: the driver answers "
+        "bad-negoff-outside-section if such a request is ever issued",
+        "which characters a build tag may contain is a fact about the Go toolchain: the model takes it as the parameter "
+        "tc (theorems for all tc) instantiated with Oracle/TagChars, measured on every run by asking the installed "
+        "go/build/constraint about every code point; the rest of a term's syntax (one optional `!`, non-empty) is "
+        "hand-written in the model and compared on every generated term with the live verdict of constraint.Parse",
+        "Attributes(NOFRAME) is never requested: a NOFRAME function whose allocation reaches the base pointer fails to "
+        "compile ('NOFRAME function clobbers base pointer register'), a compile-time fault outside the property's list "
+        "that the model does not describe",
+        "a diagnostic is one line per message; a message that itself contains line breaks (buildtags prints the offending "
+        "character raw) is counted once",
         "function names that are not Go identifiers and Doc/Pragma text with a line break are not on the list either: "
         "the statement then demands only all-or-nothing (a failing generation writes nothing); the generated names are "
         "ASCII (the model's identifier syntax is the ASCII part of Go's), the broken texts are 3 fixed ones",
@@ -124,3 +193,5 @@ def run(ctx):
     ]
     ctx.trusted.append("harness/c18.go shadow of signatures/components (steers generation, decides only the MOV-deducible flag)")
     ctx.trusted.append("harness/c18.go calibration witnesses (one canonical request per message class)")
+    ctx.trusted.append("harness/c18cons.go c18toolTerm / c18toolExpr (read the answer of go/build/constraint.Parse, strings.Fields, "
+                       "strings.Split) and harness/c18sig.go c18typesSig (reads the answer of go/types.Eval)")
